@@ -497,6 +497,7 @@ func TestReplay(t *testing.T) {
 			}
 			return verify(&c, false)
 		},
+		"deepstack": replayDeep,
 		"statements": func(raw json.RawMessage) *ev.Failure {
 			var c Case
 			json.Unmarshal(raw, &c)
